@@ -1016,9 +1016,21 @@ class Interp:
         raise Unsupported("statement %s at %s:%d" % (t.__name__, mod.name, st.lineno))
 
     def exec_with(self, st, env, mod):
-        if "with" in self.hooks:
-            return self.hooks["with"](self, st, env, mod)
-        raise Unsupported("with statement at %s:%d" % (mod.name, st.lineno))
+        """with-statement over engine-provided context managers (objects offering ext_enter / ext_exit)."""
+        entered = []
+        try:
+            for item in st.items:
+                cm = self.eval(item.context_expr, env, mod)
+                if not hasattr(cm, "ext_enter"):
+                    raise Unsupported("with statement over %r at %s:%d" % (cm, mod.name, st.lineno))
+                v = cm.ext_enter(self)
+                entered.append(cm)
+                if item.optional_vars is not None:
+                    self.assign(item.optional_vars, v, env, mod)
+            self.exec_block(st.body, env, mod)
+        finally:
+            for cm in reversed(entered):
+                cm.ext_exit(self)
 
     def _is_logging_call(self, e):
         return (
@@ -1851,6 +1863,12 @@ class Interp:
         @reg("reversed")
         def _reversed(I, a, k):
             return I.new_list(list(reversed(I.iter_values(a[0]))))
+
+        @reg("open")
+        def _open(I, a, k):
+            if "open" in I.hooks:
+                return I.hooks["open"](I, a, k)
+            raise Unsupported("open() without a file model")
 
         b["object"] = ExtType("object")
         b["NotImplemented"] = NotImplemented
